@@ -292,9 +292,12 @@ def _compare_step(ctx, ad, cfg, env, cases, drv, what, fields_ts=("step_type", "
         impl_state = ad.ser_state(env, s2)
         impl_ts = ad.ser_ts(env, ts2)
         ms = m["state"] if ad.state_fields is None else {k: v for k, v in m["state"].items() if k in ad.state_fields}
-        d = diff_json(ms, impl_state, path="state")
+        # float tolerance: 1e-5 relative per addition (DESIGN 3.4); an adapter whose rewards are float32 sums of many terms (MultiCVRP: one
+        # Euclidean distance per vehicle, up to 5 vehicles, each a sum of squares and a square root) declares the number of additions
+        tol = 1e-5 * float(getattr(ad, "float_additions", 1))
+        d = diff_json(ms, impl_state, tol, path="state")
         mts = {k: v for k, v in m["ts"].items() if k in fields_ts}
-        d += diff_json(mts, impl_ts, path="ts")
+        d += diff_json(mts, impl_ts, tol, path="ts")
         key = (ad.name, state_key(q["state"]), str(q["action"]))
         if impl_state != q["state"] or what == "illegal action":
             ctx.nontrivial.add(key)
